@@ -14,6 +14,21 @@ class Boom(Exception):
         self.aid = aid
 
 
+class BoomStop(Boom, StopIteration):
+    pass
+
+
+class BoomKey(Boom, KeyError):
+    pass
+
+
+class BoomRuntime(Boom, RuntimeError):
+    pass
+
+
+BOOMS = {None: Boom, "stop_iteration": BoomStop, "key_error": BoomKey, "runtime_error": BoomRuntime}
+
+
 class Prop:
     id = "C42"
     level = "fault_enumeration"
@@ -51,6 +66,7 @@ class Prop:
         if rng.random() < 0.4:
             # the handle returned for one root is disposed at some instant: whatever that root's action returned (nested work) is cancelled
             sc["cancel"] = [rng.choice(roots)["id"], rng.choice([0, 3, 7, 12, 20, 35, 60])]
+        sc["exc"] = rng.choice([None, None, "stop_iteration", "key_error", "runtime_error"])  # what a raising action raises is also a StopIteration / ...
         return sc
 
     def positions(self, roots):
@@ -96,7 +112,7 @@ class Prop:
                     log.append((aid, k, float(inner.clock)))
                     if fault and fault[0] == aid and fault[1] == k:
                         if catch:
-                            raise Boom((aid, k))
+                            raise BOOMS[sc.get("exc")]((aid, k))
                         state["failed"] = True
                         pdisp[aid].dispose()  # handled: CatchScheduler stops it; propagated: a periodic action that raised is not rescheduled (C35)
                         return st
@@ -111,7 +127,7 @@ class Prop:
                 log.append((aid, 0, float(inner.clock)))
                 hs = [sched(c, scheduler) for c in a["children"]]
                 if fault and fault[0] == aid and catch:
-                    raise Boom((aid, 0))
+                    raise BOOMS[sc.get("exc")]((aid, 0))
                 if fault and fault[0] == aid:
                     return Disposable()  # (bare emulation of the raising action: an action that raises returns nothing)
                 return hs[-1] if (a.get("ret_child") and hs) else Disposable()
